@@ -242,6 +242,9 @@ struct ObjValueInner {
 	#[trace(skip)]
 	has_assertions: bool,
 	value_cache: RefCell<FxHashMap<(IStr, CoreIdx), CacheValue>>,
+	#[cfg(jrsonnet_verif)]
+	#[trace(skip)]
+	vid: usize,
 }
 
 thread_local! {
@@ -274,6 +277,8 @@ thread_local! {
 		assertions_ran: Cell::new(true),
 		has_assertions: false,
 		value_cache: RefCell::default(),
+		#[cfg(jrsonnet_verif)]
+		vid: crate::verif::next_id(),
 	}))
 }
 
@@ -497,6 +502,8 @@ impl ObjValue {
 			value_cache: RefCell::default(),
 			assertions_ran: Cell::new(!has_assertions),
 			has_assertions,
+			#[cfg(jrsonnet_verif)]
+			vid: crate::verif::next_id(),
 		}))
 	}
 	// #[must_use]
@@ -602,7 +609,7 @@ impl ObjValue {
 					Some(CacheValue::Pending) => "reenter",
 					None => "start",
 				},
-				std::ptr::from_ref(&*self.0) as usize,
+				self.0.vid,
 				core.idx,
 				&cache_key.0,
 			);
@@ -626,7 +633,7 @@ impl ObjValue {
 		crate::verif::emit_key(
 			"obj",
 			if result.is_ok() { "finish" } else { "fail" },
-			std::ptr::from_ref(&*self.0) as usize,
+			self.0.vid,
 			core.idx,
 			&cache_key.0,
 		);
